@@ -23,6 +23,9 @@ pub enum Ty {
     Opt(Box<Ty>),
     Res(Box<Ty>, Box<Ty>),
     Tuple(Vec<Ty>),
+    /// signed integer (pass-through only: `iN::from_le_bytes`, copies); Lean `Int`
+    #[allow(dead_code)]
+    SInt(u32),
     /// `std::time::Duration` (nanoseconds as `Nat`; comparison and copy only)
     Dur,
     /// translated struct / enum (simple Rust name)
